@@ -168,6 +168,8 @@ pub struct World<T: Payload> {
     pub log: Fnv,
     /// the model can no longer interpret the real state: the run must end
     pub diverged: bool,
+    /// the run ends here by design (not because another property's defect was met)
+    pub stop_clean: bool,
     /// blind continuation (C01 / C02 runs only): the model has lost track of the real links, the
     /// run goes on with ids that are live in the *real* arena and only the model-free invariants
     /// are evaluated
@@ -307,6 +309,7 @@ impl<T: Payload> World<T> {
                 stats: Stats::default(),
                 log: Fnv::new(),
                 diverged: false,
+                stop_clean: false,
                 blind: false,
                 deep_c06: false,
                 since_reject: None,
@@ -338,6 +341,12 @@ impl<T: Payload> World<T> {
             }
             Op::RestartClone | Op::RestartSerde { .. } | Op::Clear | Op::CloneFrom => self.frozen.is_none(),
             Op::SaveSpare | Op::ObsCapacity { .. } => true,
+            Op::StaleInsert { a, slot, ord, .. } => {
+                m.is_live(*a)
+                    && self.frozen.is_none()
+                    && m.issued.get(*slot as usize - 1).is_some_and(|h| (*ord as usize) + 1 < h.len())
+                    && m.slot_key[*slot as usize - 1].is_some()
+            }
             Op::Fork { k, .. } => self.frozen.is_none() && *k >= 1,
             Op::ObsTraverse | Op::ObsLookup | Op::Drain | Op::ObsPar { .. } => true,
             Op::ObsPull { x, .. } | Op::ObsPrint { x, .. } => m.is_live(*x),
@@ -1138,6 +1147,23 @@ impl<T: Payload> World<T> {
                     }
                     Err(p) => self.unexpected_panic("C13", "clone", &p, out),
                 }
+            }
+            Op::StaleInsert { kind, checked, a, slot, ord, recv } => {
+                let ida = self.idk(*a);
+                let stale = self.m.issued[*slot as usize - 1][*ord as usize];
+                let raw = if *recv {
+                    raw_insert(&mut self.arena, *kind, *checked, stale, ida)
+                } else {
+                    raw_insert(&mut self.arena, *kind, *checked, ida, stale)
+                };
+                out.class = raw.class;
+                if raw.class == Class::Err {
+                    self.log.str(&raw.text);
+                }
+                self.stats.probe("stale_id_insert_logged");
+                // nothing is judged; the model cannot follow: the run ends after this step
+                self.diverged = true;
+                self.stop_clean = true;
             }
             Op::SaveSpare => {
                 if let Ok(c) = catch(|| self.arena.clone()) {
